@@ -6,6 +6,10 @@ package main
 import (
 	"bytes"
 	"fmt"
+	"os"
+	"path/filepath"
+
+	"github.com/shutter-network/rolling-shutter/rolling-shutter/app"
 
 	"github.com/shutter-network/rolling-shutter/rolling-shutter/shmsg"
 
@@ -20,6 +24,8 @@ type injected struct {
 	Tx      []byte         `json:"tx"`
 	Hide    []byte         `json:"hide,omitempty"` // outsider address whose own entries may differ
 }
+
+var tmpDir string
 
 func withInjection(in injected) appdrv.History {
 	h := appdrv.History{Genesis: in.History.Genesis}
@@ -71,6 +77,32 @@ func twin(run *vh.Run, in injected, base []appdrv.Resp) {
 	if in.Kind != "outsider" && inj.Code == 0 {
 		bad("C10:refused-tx-code-zero", "a "+in.Kind+" transaction was answered with code 0", inj)
 	}
+	// the same mempool check on a node restarted from its state file at that point (the property
+	// speaks of any chain state; a restarted node is in one)
+	if tmpDir != "" {
+		a0, _ := appdrv.NewApp(in.History.Genesis)
+		for _, c := range in.History.Calls[:in.At] {
+			appdrv.Exec(a0, c)
+		}
+		a0.Gobpath = filepath.Join(tmpDir, "c10.gob")
+		if err := a0.PersistToDisk(); err == nil {
+			if sa, err := app.LoadShutterAppFromFile(a0.Gobpath); err == nil {
+				r := appdrv.Exec(&sa, appdrv.Call{Kind: "check", Tx: in.Tx})
+				if r.Panic != "" {
+					bad("C10:panic", "CheckTx on a restarted node panicked: "+r.Panic, r)
+				} else if r.Code == 0 {
+					bad("C10:check-accepts-refusable-after-restart", "CheckTx of a node restarted from its state file accepted a "+in.Kind+" transaction", r)
+				}
+				r = appdrv.Exec(&sa, appdrv.Call{Kind: "deliver", Tx: in.Tx})
+				if r.Panic != "" {
+					bad("C10:panic", "DeliverTx on a restarted node panicked: "+r.Panic, r)
+				} else if len(r.Events) != 0 || (in.Kind != "outsider" && r.Code == 0) {
+					bad("C10:refused-tx-has-effect-after-restart", "a "+in.Kind+" transaction had an effect on a node restarted from its state file", r)
+				}
+			}
+		}
+		os.Remove(a0.Gobpath)
+	}
 	// mempool check of the same bytes at the same point
 	{
 		hc := appdrv.History{Genesis: in.History.Genesis, Calls: append(append([]appdrv.Call{}, in.History.Calls[:in.At]...), appdrv.Call{Kind: "check", Tx: in.Tx})}
@@ -106,6 +138,10 @@ func main() {
 	defer run.Finish()
 	run.Rule = "ABCI histories as in C09 (with the malformed stream mixed in); every history is also re-run with one extra transaction injected at 3 positions, of each refusable kind (random bytes, not base64, truncated, wrong chain, replay of an earlier transaction, no payload, arbitrary payload signed by a key that is never a keyper), comparing all later responses and the final state with the run without it; non-trivial history = at least 3 accepted transactions; every injection counts as one non-trivial evaluation"
 	u := appdrv.NewUniverse(8)
+	if d, err := os.MkdirTemp("", "verif-c10-"); err == nil {
+		tmpDir = d
+		defer os.RemoveAll(d)
+	}
 	if run.Replay != "" {
 		var in injected
 		if err := run.LoadReplay(&in); err != nil {
